@@ -76,9 +76,13 @@ def base_cases(tier, seed):
             o["ny_outer_sol"] = draw(st.integers(3, 5))
             if top in ("ldn", "udn"):
                 o["nx_inter_sep"] = 1
-            if draw(st.booleans()):
-                o["psinorm_pf_lower"] = 0.92
-                o["psinorm_pf_upper"] = 0.88
+        # per-divertor private-flux limits ("mirrored per-leg settings"): a single null reads only the one
+        # of its own X-point, so they always differ there and the tighter one is usually the smallest
+        # radial spacing at the separatrix (it then sets dpsidi_sep for every segment)
+        if top in ("lsn", "usn") or draw(st.booleans()):
+            lo, up = draw(st.sampled_from([(0.92, 0.88), (0.88, 0.92), (0.95, 0.9), (0.9, 0.95)]))
+            o["psinorm_pf_lower"] = lo
+            o["psinorm_pf_upper"] = up
         return {"family": "G", "entry": "api", "eq": eq, "options": o}
 
     n = 6 if tier == "quick" else 48
